@@ -32,7 +32,7 @@ func (o *Obligation) smt(withModel bool) string {
 	if n > len(o.decls) {
 		n = len(o.decls)
 	}
-	for _, l := range o.decls[:n] {
+	for _, l := range sliceDecls(o.decls[:n], o.Live+" "+o.Goal) {
 		b.WriteString(l)
 		b.WriteString("\n")
 	}
@@ -68,7 +68,15 @@ func runSolver(sc solverCfg, timeout int, file string) (status string, out strin
 	_ = cmd.Run()
 	secs = time.Since(t0).Seconds()
 	out = buf.String()
-	first := strings.TrimSpace(strings.SplitN(out, "\n", 2)[0])
+	first := ""
+	for _, l := range strings.Split(out, "\n") {
+		l = strings.TrimSpace(l)
+		if l == "" || strings.HasPrefix(l, "WARNING") || strings.HasPrefix(l, "(warning") {
+			continue
+		}
+		first = l
+		break
+	}
 	switch first {
 	case "unsat", "sat", "unknown":
 		return first, out, secs
@@ -166,4 +174,114 @@ func solveOne(o *Obligation, dir string, timeout int, wantModel bool) SolveResul
 		r.Status = "unknown"
 	}
 	return r
+}
+
+// ---------------------------------------------------------------------------
+// cone-of-influence slicing of the declaration context
+
+func symbolsOf(s string) []string {
+	var out []string
+	i := 0
+	for i < len(s) {
+		c := s[i]
+		if c == '(' || c == ')' || c == ' ' || c == '\t' || c == '\n' {
+			i++
+			continue
+		}
+		if c == ';' { // comment to end of line
+			for i < len(s) && s[i] != '\n' {
+				i++
+			}
+			continue
+		}
+		j := i
+		for j < len(s) && s[j] != '(' && s[j] != ')' && s[j] != ' ' && s[j] != '\n' && s[j] != '\t' {
+			j++
+		}
+		out = append(out, s[i:j])
+		i = j
+	}
+	return out
+}
+
+type declLine struct {
+	text    string
+	defines string // symbol declared/defined by this line ("" for asserts)
+	kind    byte   // 'd' declare, 'f' define, 'a' assert, 's' sort/datatype (always kept)
+	syms    []string
+}
+
+func parseDeclLine(l string) declLine {
+	d := declLine{text: l}
+	switch {
+	case strings.HasPrefix(l, "(declare-const "), strings.HasPrefix(l, "(declare-fun "):
+		d.kind = 'd'
+		f := strings.Fields(l)
+		d.defines = strings.TrimRight(f[1], "()")
+	case strings.HasPrefix(l, "(define-fun "), strings.HasPrefix(l, "(define-fun-rec "):
+		d.kind = 'f'
+		f := strings.Fields(l)
+		d.defines = f[1]
+	case strings.HasPrefix(l, "(assert "):
+		d.kind = 'a'
+	default:
+		d.kind = 's'
+	}
+	d.syms = symbolsOf(l)
+	return d
+}
+
+func sliceDecls(lines []string, roots string) []string {
+	ds := make([]declLine, len(lines))
+	declared := map[string]bool{} // declared (unconstrained) symbols
+	for i, l := range lines {
+		ds[i] = parseDeclLine(l)
+		if ds[i].kind == 'd' {
+			declared[ds[i].defines] = true
+		}
+	}
+	rel := map[string]bool{}
+	for _, s := range symbolsOf(roots) {
+		rel[s] = true
+	}
+	keep := make([]bool, len(ds))
+	for changed := true; changed; {
+		changed = false
+		for i := range ds {
+			if keep[i] {
+				continue
+			}
+			d := &ds[i]
+			take := false
+			switch d.kind {
+			case 's':
+				take = true
+			case 'd', 'f':
+				take = rel[d.defines]
+			case 'a':
+				for _, s := range d.syms {
+					if declared[s] && rel[s] {
+						take = true
+						break
+					}
+				}
+			}
+			if take {
+				keep[i] = true
+				changed = true
+				for _, s := range d.syms {
+					if !rel[s] {
+						rel[s] = true
+					}
+				}
+			}
+		}
+	}
+	var out []string
+	for i, d := range ds {
+		if keep[i] {
+			out = append(out, d.text)
+		}
+	}
+	return out
 }
